@@ -93,4 +93,16 @@ META = {
         "note": "ScaledRecipe's Scaled payload has no PartialEq: compared through byte identity of the second serialization",
         "technique": "runtime monitoring: round-trip oracle",
     },
+    "C18": {
+        "text": "History monitor: every call is recorded as (process, thread, input, config, image hash) and the offline check requires one hash per (input, config) across call positions, reused vs fresh parsers, 16-thread sharing, hundreds of separate processes and both build profiles; Miri (seeded schedules) and, in thorough, ThreadSanitizer watch the same threaded workload for data races.",
+        "design_ref": "DESIGN.md §6 C18",
+        "note": "schedules are sampled; the parser takes no locks, the only shared write is the one-time fraction-table initialisation, which every thread's first operation races",
+        "technique": "runtime monitoring: recorded-history equality checker + Miri/TSan race detection",
+    },
+    "C19": {
+        "text": "Mirror relation between the bindings' simplified recipe and the core recipe on generated canonical inputs, and an independent fold as the oracle for combine_ingredients / combine_ingredients_selected over all small permutations and random selections.",
+        "design_ref": "DESIGN.md §6 C19",
+        "note": "bindings source is included with #[path] so that the working tree's code runs and private fields are readable",
+        "technique": "runtime monitoring: mirror oracle against the core API + reference fold",
+    },
 }
